@@ -577,6 +577,18 @@ def gen_special():
                         out.append(scenario(b"build.ninja", [
                             (b"build.ninja", root), (b"a.ninja", a + b"include c.ninja\n"), (b"c.ninja", c),
                             (b"b.ninja", b"subninja d.ninja\n"), (b"d.ninja", c2)]))
+    # include cycles and the depth limit (200 nested files): the error names the file at depth
+    # 200 and the line of its include statement
+    for kw in (b"include", b"subninja"):
+        out.append(scenario(b"build.ninja", [(b"build.ninja", kw + b" build.ninja\n")]))
+        out.append(scenario(b"build.ninja", [(b"build.ninja", b"x = 1\n\n" + rule + kw + b" ./build.ninja\n" + kw + b" build.ninja\n")]))
+        out.append(scenario(b"build.ninja", [(b"build.ninja", kw + b" a.ninja\n"),
+                                             (b"a.ninja", b"y = 2\n" + kw + b" build.ninja\n")]))
+        out.append(scenario(b"build.ninja", [(b"build.ninja", b"include a.ninja\n"),
+                                             (b"a.ninja", b"\nsubninja b.ninja\n"),
+                                             (b"b.ninja", b"\n\n" + kw + b" build.ninja\n")]))
+        out.append(scenario(b"build.ninja", [(b"build.ninja", kw + b" a.ninja\nbuild o: phony\n"),
+                                             (b"a.ninja", b"v = $v.\n" + kw + b" a.ninja\n")]))
     return out
 
 
